@@ -220,7 +220,12 @@ func VerifHarness_C07_faults() {
 		return
 	}
 	orig := verifCopyBar(bar)
-	verifDamage(bar, mains[signal], stale)
+	for k := 0; k < rt.Param("FAULTS"); k++ { // any combination of FAULTS payload-level faults
+		if len(bar.ArrowPayloads) == 0 {
+			break
+		}
+		verifDamage(bar, mains[signal], stale)
+	}
 	n, err := consume(bar) // a panic here is reported by the engine as a violation
 	want := 2
 	if signal == 2 {
